@@ -122,7 +122,8 @@ func (commander *Commander) exec(ctx context.Context, parameters Parameters, scr
 		if err != nil {
 			return nil, nil, errors.Wrap(err, "locking accounts for tx processing")
 		}
-		unlock(ctx)
+		// the accounts stay locked from the balance read until the log is persisted
+		defer unlock(ctx)
 
 		err = m.ResolveBalances(ctx, commander.store)
 		if err != nil {
@@ -156,7 +157,14 @@ func (commander *Commander) exec(ctx context.Context, parameters Parameters, scr
 			log = log.WithIdempotencyKey(parameters.IdempotencyKey)
 		}
 
-		return executionContext.AppendLog(ctx, log)
+		chainedLog, done, err := executionContext.AppendLog(ctx, log)
+		if err != nil {
+			return nil, nil, err
+		}
+		// wait for persistence before releasing the account locks and the reference
+		<-done
+
+		return chainedLog, done, nil
 	})
 }
 
